@@ -210,11 +210,12 @@ func c20(w *core.World, r *core.Report) {
 		r.OK("PRODUCER-CONCURRENT", "no make-then-drain function in the boundary scope", "", "")
 	}
 	r.Rule("TYPED-NIL", 1, "K7: in the boundary scope a function with an interface result does not return a possibly nil POINTER converted to that interface (nil constant of pointer type, or the result of a repository function that has a 'return nil') unless a nil test of the pointer dominates the conversion: the caller's 'x == nil' is false for a typed nil and the next method call dereferences nil.")
-	r.Rule("EXPAND-PROGRESS", 1, "K8: the self-recursion of Converter.ConvertNotificationTypedValues on the result of ExpandUpdate makes progress: in ExpandUpdate no store that puts the input update into a result slice is dominated by the JSON decode of the container branch (a JSON blob on a container is replaced by its expansion, never handed back).")
+	r.Rule("EXPAND-PROGRESS", 3, "K8: the self-recursion of Converter.ConvertNotificationTypedValues on the result of ExpandUpdate makes progress: in ExpandUpdate no store that puts the input update into a result slice is dominated by the JSON decode of the container branch (a JSON blob on a container is replaced by its expansion, never handed back). K8b: for the kinds ExpandUpdate does hand back (leaf, leaf-list: nothing to expand) the conversion step whose nil result leads to ExpandUpdate (found structurally: the callee whose result is nil-tested on the way to that call) has no 'return nil, nil' on the 'schema is a leaf-list / leaf' outcome unless the 'update has no value' outcome dominates it: an update with a JSON value on such a node is converted or refused, never sent round the recursion again.")
 	if nT := c20TypedNil(w, r, scope); nT == 0 {
 		r.OK("TYPED-NIL", "no possibly-nil pointer is returned as an interface in the boundary scope", "", "")
 	}
 	c20ExpandProgress(w, r)
+	c20ExpandProgressKinds(w, r)
 
 	r.Rule("ASSERTED-MSG", 0, "K12: a field selected on a protobuf message pointer that a type switch / type assertion took out of an 'any' value (case *sdcpb.Decimal64: v.Precision) needs a dominating nil test of that pointer, for the message types that the repository itself can leave nil inside a TypedValue (a oneof wrapper field is assigned the result of a repository function that can return nil: ParseDecimal64 answers (nil, nil) for an empty text): utils.GetSchemaValue boxes the getter result, and the typed nil still matches the case. (Wire-decoded sub-messages are never nil inside a set oneof; getter calls are nil-safe.)")
 	// message types the repository can leave nil inside a oneof wrapper of TypedValue -> who does it
